@@ -122,6 +122,29 @@ func HostileEnums(r *kit.Rng, m *Node) {
 	})
 }
 
+// AddAnydata puts one to three anydata nodes into containers of the schema
+// (only the writer check uses them: their value is arbitrary JSON, or a
+// selection that the JSON writer renders with a nested writer of its own).
+func AddAnydata(r *kit.Rng, m *Node) {
+	var conts []*Node
+	m.Walk(func(x *Node) {
+		if x.Kind == Container || x.Kind == List {
+			conts = append(conts, x)
+		}
+	})
+	n := r.Range(1, 3)
+	for i := 0; i < n && len(conts) > 0; i++ {
+		c := conts[r.Intn(len(conts))]
+		a := &Node{Kind: Leaf, Name: fmt.Sprintf("any%d", i), Type: "anydata", Module: c.Module, Parent: c}
+		// somewhere among the siblings, not always last
+		at := r.Intn(len(c.Children) + 1)
+		if c.Kind == List && at < len(c.Keys) {
+			at = len(c.Children)
+		}
+		c.Children = append(c.Children[:at:at], append([]*Node{a}, c.Children[at:]...)...)
+	}
+}
+
 // GenerateRich draws a two-module schema (main + g) that uses every leaf type.
 func GenerateRich(r *kit.Rng, name string, maxNodes, maxDepth int) *Node {
 	g := &richGen{r: r, max: maxNodes}
